@@ -479,6 +479,35 @@ def unexpected_refusals(fn, known_blocks=(), allow=None):
     return out
 
 
+def clause_index_scan_bounds(R, F, only_methods=None):
+    """every range scan of the (block, index) -> hash table runs over [key(a, 0), key(b + 1, 0)) built by the one key helper:
+    whole blocks, inclusive of block b, nothing of block b + 1"""
+    from terms import calls_in as _calls_in
+    db = roles.database_struct(F)
+    n = 0
+    for fn in F.fns.values():
+        if fn.kind != "method" or fn.j.get("self_ty") != db["name"] or not fn.blocks:
+            continue
+        if only_methods is not None and fn.j.get("method") not in only_methods:
+            continue
+        for c in calls_on_field(fn, {"get_range"}).get("db_number_and_index_to_tx_hash", []):
+            n += 1
+
+            def key_arg(t):
+                ks = [x for x in _calls_in(t) if x[1].endswith("get_number_and_index_key") and len(x[2]) == 2]
+                if len(ks) != 1:
+                    return None
+                l0, l1 = lin(ks[0][2][0]), lin(ks[0][2][1])
+                if len(l0.terms) != 1 or l1.terms or l1.k != 0:
+                    return None
+                return l0.k
+            lo, hi = origin(fn, c.args[1]), origin(fn, c.args[2])
+            R.ob(key_arg(lo) == 0 and key_arg(hi) == 1, "WIRE", c.where(), "WIRE|%s|scan-bounds" % fn.j.get("method"),
+                 "%s scans the index over [%s, %s); expected [key(first block, 0), key(last block + 1, 0))" % (fn.j.get("method"), show(lo)[:60], show(hi)[:60]),
+                 sample={"rule": "WIRE index scan bounds", "fn": fn.j.get("method"), "scan": "[key(a,0), key(b+1,0))"})
+    return n
+
+
 # ---------------------------------------------------------------- stamps
 
 def clause_stamps(R, F, CG):
